@@ -8,14 +8,14 @@ theorem task_excl {k : AKind} (h : k = .task) : isMulti k = false ∧ counted k 
   subst h; simp [isMulti, counted]
 
 macro "invC_auto" : tactic =>
-  `(tactic| (constructor <;> (try simp only [doSubmit, doDrop, doCurrent, doLdtor, doRet, doPublish, doFdtor, doResume, doReady, doMReady,
+  `(tactic| (constructor <;> (try simp only [doSubmit, doDrop, doCurrent, doLdtor, doRet, doPublish, doFdtor, doTdtor, doResume, doReady, doMReady,
       State.setWord]) <;>
       grind [inOp, decided, regPos]))
 
 set_option maxHeartbeats 8000000 in
 theorem invC_step_0 {w s l s'} (ha : InvA w s) (hc : InvC w s) (hs : Step s l s')
     (hl : match l with | .pXchg _ | .envPush _ | .envSwap _ _ | .exCall | .exDrop | .ldtor | .ret | .publish _ | .fdtor
-                       | .rdLoad _ | .mload _ | .submit _ | .current _ | .resume _ _ | .ready _ | .tstore => True | _ => False) :
+                       | .rdLoad _ | .mload _ | .submit _ | .current _ | .resume _ _ | .ready _ | .tstore | .tdtor _ => True | _ => False) :
     InvC w s' := by
   cases hc
   cases hs with
@@ -32,6 +32,7 @@ theorem invC_step_0 {w s l s'} (ha : InvA w s) (hc : InvC w s) (hs : Step s l s'
   | mload v h hv => invC_auto
   | submit e h => invC_auto
   | current op rest h ht => invC_auto
+  | tdtor j h hl hr => invC_auto
   | resume op rest c h ht => invC_auto
   | ready x h =>
       have hpk := ha.pc_kind
